@@ -254,24 +254,25 @@ Qed.
 Section Repeat.
   Context {A : Type} (d : rd A) (enc : A -> bytes) (wf : A -> Prop) (len : A -> N).
 
-  (* more fuel than bytes never changes the result, when each iteration consumes >= 1 byte *)
-  Hypothesis d_progress : forall b a r, d b = Ok (a, r) -> blen r < blen b.
+  (* more fuel than bytes never changes the result, when each iteration consumes >= 1 byte:
+     the fuel of [repeat_dec] is not observable, the loop stops because the buffer is empty *)
+  Hypothesis d_progress : forall b a r, is_bytes b -> d b = Ok (a, r) -> is_bytes r /\ blen r < blen b.
 
-  Lemma repeat_dec_fuel2 : forall f1 f2 b, (length b <= f1)%nat -> (length b <= f2)%nat ->
+  Lemma repeat_dec_fuel2 : forall f1 f2 b, is_bytes b -> (length b <= f1)%nat -> (length b <= f2)%nat ->
     repeat_dec f1 d b = repeat_dec f2 d b.
   Proof.
-    induction f1 as [|f1 IH]; intros f2 b H1 H2.
+    induction f1 as [|f1 IH]; intros f2 b Hb H1 H2.
     - destruct b; [destruct f2; reflexivity | cbn [length] in H1; lia].
     - destruct b as [|x b']; [destruct f2; reflexivity|].
       cbn [length] in H1, H2. destruct f2 as [|f2]; [lia|].
       cbn [repeat_dec]. destruct (d (x :: b')) as [[a r]| |] eqn:E; cbn [bind]; try reflexivity.
-      apply d_progress in E. rewrite !blen_length in E. cbn [length] in E.
-      rewrite (IH f2 r) by lia. reflexivity.
+      apply (d_progress _ _ _ Hb) in E as [Hr E]. rewrite !blen_length in E. cbn [length] in E.
+      rewrite (IH f2 r) by (auto; lia). reflexivity.
   Qed.
 
-  Lemma repeat_dec_fuel : forall fuel b, (length b <= fuel)%nat ->
+  Lemma repeat_dec_fuel : forall fuel b, is_bytes b -> (length b <= fuel)%nat ->
     repeat_dec fuel d b = repeat_until_empty d b.
-  Proof. intros fuel b H. unfold repeat_until_empty. apply repeat_dec_fuel2; [exact H | lia]. Qed.
+  Proof. intros fuel b Hb H. unfold repeat_until_empty. apply repeat_dec_fuel2; [exact Hb | exact H | lia]. Qed.
 
   Hypothesis d_rt : forall a r, wf a -> d (enc a ++ r) = Ok (a, r).
   Hypothesis enc_nonempty : forall a, wf a -> enc a <> [].
